@@ -391,3 +391,10 @@ func (m *Model) typed(db int, key string, t byte) (*Obj, bool) {
 	}
 	return o, false
 }
+
+// SessionState renders the per-connection record (compared with the implementation's own
+// session record when the private-state probe is available).
+func (m *Model) SessionState(i int) string {
+	s := m.Sess[i]
+	return fmt.Sprintf("db=%d proto=%d name=%q multi=%v qlen=%d abort=%v watches=%d", s.DB, s.Proto, s.Name, s.Multi, len(s.Queue), s.Abort, len(s.Watch))
+}
